@@ -106,6 +106,34 @@ def _run(ck, m):
           'the value file is flushed before the key files' if ok else
           'the key files are flushed (%s) before the value file (%s): a crash in between leaves key records pointing past the end of the '
           'value file' % ([wb.loc(k) for k in kflush], [wb.loc(v) for v in vflush]), wb.loc(kflush[0]) if kflush else '')
+    # ... and before anything else is touched: a file that the snapshot opens after its record loop (the metadata file) is opened only
+    # when the three data streams are on disk — a kill (or a blocking open) inside that step otherwise falls between the in-place key
+    # updates / the reclaiming renames, which are done, and the buffered tails, which are lost
+    from props.C07 import natural_loops as _nl11
+    inl = set()
+    for h_, body_ in _nl11(wb):
+        inl |= body_
+    def opens_files(b_, depth=0, seen=None):
+        seen = seen if seen is not None else set()
+        if b_.id in seen or depth > 3:
+            return False
+        seen.add(b_.id)
+        for _bi, t_ in b_.calls():
+            if callee_decl(t_) in ('std::fs::OpenOptions::open', 'std::fs::File::create', 'std::fs::File::open', 'std::fs::write', 'std::fs::rename'):
+                return True
+            cb2 = P.bodies.get(callee(t_))
+            if cb2 is not None and opens_files(cb2, depth + 1, seen):
+                return True
+        return False
+    after_loop = [bi for bi, t in wb.calls() if bi not in inl and not is_log(t) and P.bodies.get(callee(t)) is not None
+                  and any(wb.dominates(x, bi) for x in inl) and opens_files(P.bodies[callee(t)])]
+    tail_flushes = [bi for bi, base, p in flushes if bi not in inl]
+    early = [wb.loc(bi) + ' ' + callee(wb.term(bi)).split('::')[-1] for bi in after_loop if not all(wb.dominates(f_, bi) for f_ in tail_flushes)]
+    ck.ob('C11.a', fn, 'data-streams-flushed-before-other-files', bool(tail_flushes) and not early,
+          'every file the snapshot opens after its record loop is opened after the flushes of the data streams' if tail_flushes and not early else
+          'after the record loop the snapshot opens another file (%s) before its data streams are flushed: a kill inside that step leaves the '
+          'in-place key updates (or the reclaiming renames) on disk and the buffered value / key tails nowhere — a key comes back with bytes '
+          'that were never stored, or the keys of earlier snapshots are gone' % early, early[0].split(' ')[0] if early else wb.loc(tail_flushes[0]) if tail_flushes else '')
     # in-place updates happen inside the loop, before any flush of the values
     upd = [bi for bi, t in wb.calls() if callee(t).endswith('storage::disk::update_key')]
     okp = bool(upd) and all(any(wb.dominates(v, u) for v in vflush) for u in upd)
